@@ -93,15 +93,17 @@ func runPool(jobs []*job, par int, timeout time.Duration) {
 }
 
 type found struct {
-	viol  *Violation
-	wl    *Workload
-	build string // plain | race
-	race  string // race report text
-	rng   [2]uint64
-	isRng bool
+	jobFrom uint64
+	jobKind string
+	viol    *Violation
+	wl      *Workload
+	build   string // plain | race
+	race    string // race report text
+	rng     [2]uint64
+	isRng   bool
 }
 
-var raceFrame = regexp.MustCompile(`(?m)^\s+(github\.com/woodsbury/jmespath[^\s(]*)\(`)
+var raceFrame = regexp.MustCompile(`(?m)^\s+(github\.com/woodsbury/jmespath\S*?)\(\)\s*$`)
 
 // raceSig extracts the first repository frame of each of the two stacks of
 // the first race report.
@@ -251,6 +253,33 @@ func (o *orch) replayOnce(w *Workload, build string) (class, sig, text string) {
 		return "inconclusive", "", so
 	}
 	return "trouble", "", fmt.Sprintf("exit %d: %s %s", code, trunc(so, 500), trunc(se, 1500))
+}
+
+// replayPrefix re-runs worker range [from,to) in a fresh process and returns
+// the class of the violation it ends with ("ok" if none).
+func (o *orch) replayPrefix(from, to uint64, build string) (class string, wo *WorkerOut) {
+	bin := o.plain
+	if build == "race" {
+		bin = o.raceBin
+	}
+	f, err := os.CreateTemp(o.dir, "prefix-*.json")
+	if err != nil {
+		return "trouble", nil
+	}
+	out := f.Name()
+	f.Close()
+	defer os.Remove(out)
+	j := &job{name: "prefix", kind: build, bin: bin, out: out, errf: out + ".err", from: from, to: to}
+	j.args = []string{"worker", "-prop", o.prop, "-seed", fmt.Sprint(o.seed), "-from", fmt.Sprint(from), "-to", fmt.Sprint(to), "-out", out, "-maxops", fmt.Sprint(o.maxOps)}
+	runJob(j, 20*time.Minute)
+	defer os.Remove(j.errf)
+	if j.wo != nil && j.wo.Viol != nil {
+		return j.wo.Viol.Class, j.wo
+	}
+	if j.code == 0 {
+		return "ok", j.wo
+	}
+	return "trouble", j.wo
 }
 
 func cmdOrch(args []string) {
@@ -424,7 +453,7 @@ func (o *orch) search(scale float64) int {
 		case j.timedOut:
 			o.troublef("job %s timed out", j.name)
 		case j.wo != nil && j.wo.Viol != nil:
-			f := found{viol: j.wo.Viol, wl: j.wo.Workload, build: build}
+			f := found{viol: j.wo.Viol, wl: j.wo.Workload, build: build, jobFrom: j.from, jobKind: j.kind}
 			if j.wo.Viol.Class == "data-race" {
 				f.race = firstRaceReport(errText)
 				f.viol.Sig = "data-race " + raceSig(errText)
@@ -480,6 +509,9 @@ func (o *orch) search(scale float64) int {
 		if r == exitViolation {
 			nviol++
 		}
+	}
+	if nviol > 0 {
+		code = exitViolation // a confirmed, replayable violation outranks machinery trouble
 	}
 	if len(o.trouble) > 0 {
 		for _, t := range o.trouble {
@@ -580,10 +612,35 @@ func (o *orch) reportViolation(f found) int {
 			if cl != f.viol.Class {
 				return false
 			}
-			if cl == "data-race" {
-				return "data-race "+sig == wantSig
-			}
+			// any data race is the same violation class; the racing frames are
+			// kept in the report but not required to stay identical
+			_ = sig
+			_ = wantSig
 			return true
+		}
+		if !same(f.wl) && (f.jobKind == "plain" || f.jobKind == "race") && f.wl.Index > f.jobFrom {
+			// the run may depend on state left behind by earlier runs of the same
+			// process (a polluted global): replay a growing window of preceding
+			// run indices in a fresh process
+			idx := f.wl.Index
+			for win := uint64(1); ; win *= 2 {
+				from := f.jobFrom
+				if idx-f.jobFrom > win {
+					from = idx - win
+				}
+				if cl, _ := o.replayPrefix(from, idx+1, f.build); cl == f.viol.Class {
+					rf.Note = fmt.Sprintf("needs state left by preceding runs of the same process: replay runs worker indices [%d,%d] of VERIF_SEED %d in one fresh %s process", from, idx, o.seed, f.build)
+					rf.Workload.Note = fmt.Sprintf("prefix %d %d %d", from, idx+1, o.maxOps)
+					if k := o.isKnown(found{viol: rf.Violation, wl: rf.Workload}); k != nil {
+						fmt.Printf("KNOWN-FINDING: property=%s %s\n", o.prop, k.Description)
+						return 0
+					}
+					return o.emit(rf)
+				}
+				if from == f.jobFrom {
+					break
+				}
+			}
 		}
 		if !same(f.wl) {
 			// not reproducible in a fresh process: global state from earlier runs
@@ -614,6 +671,10 @@ func (o *orch) reportViolation(f found) int {
 		fmt.Printf("KNOWN-FINDING: property=%s %s\n", o.prop, k.Description)
 		return 0
 	}
+	return o.emit(rf)
+}
+
+func (o *orch) emit(rf ReplayFile) int {
 	os.MkdirAll(o.replays, 0o755)
 	h := hstr(hstr(o.seed, rf.Violation.Sig), mustJSON(rf.Workload))
 	path := filepath.Join(o.replays, fmt.Sprintf("%s-%d-%08x.json", o.prop, o.seed, uint32(h)))
@@ -671,6 +732,25 @@ func (o *orch) doReplay(path string) int {
 		}
 		fmt.Println("jmsim: replay did not show the violation")
 		return 0
+	}
+	if strings.HasPrefix(rf.Workload.Note, "prefix ") {
+		var from, to uint64
+		var maxOps int
+		fmt.Sscanf(rf.Workload.Note, "prefix %d %d %d", &from, &to, &maxOps)
+		o.seed, o.maxOps = rf.Seed, maxOps
+		cl, wo := o.replayPrefix(from, to, rf.Build)
+		fmt.Printf("jmsim: replay of %s: worker indices [%d,%d) in one fresh %s process: class=%s\n", path, from, to, rf.Build, cl)
+		switch cl {
+		case "ok":
+			return 0
+		case "trouble":
+			return exitTrouble
+		}
+		if wo != nil && wo.Viol != nil {
+			fmt.Println(trunc(wo.Viol.Detail, 2000))
+		}
+		fmt.Printf("VIOLATION property=%s replay=%s\n", o.prop, path)
+		return exitViolation
 	}
 	cl, sig, txt := o.replayOnce(rf.Workload, rf.Build)
 	fmt.Printf("jmsim: replay of %s (%s build): class=%s sig=%s\n%s\n", path, rf.Build, cl, sig, trunc(txt, 4000))
